@@ -115,7 +115,7 @@ def run(ctx):
             env["VERIF_REPLAY"] = os.path.abspath(ctx.replay)
         else:
             env["VERIF_CORPUS"] = corpus
-            env["VERIF_MAXRUNS"] = 40000 if ctx.thorough else 4000
+            env["VERIF_MAXRUNS"] = 5000 if ctx.thorough else 3000
         out = os.path.join(ctx.scratch, "out-" + name)
         rc, log, out = ctx.run_harness(binary, "TestVerifC05", env, outdir=out, timeout=3000, cwd=cwd)
         if rc != 0:
